@@ -61,6 +61,11 @@ func c09Run(c *fw.Case, env *fw.Env) *fw.Obs {
 				return o
 			}
 			ref.SaveRef(w.remoteRS, "heads/"+pl.Name, w.h.sums[pl.Remote], "setup", "s@x", "setup", "current position", nil)
+			if p.PreOld && len(w.h.parents[mid]) > 0 {
+				// a branch on the parent of the earlier position: that commit is here already, without its table
+				ref.SaveRef(w.remoteRS, "heads/old", w.h.sums[w.h.parents[mid][0]], "setup", "s@x", "setup", "old branch", nil)
+				class += "/ref-on-shallow-commit"
+			}
 			o.Ev("fetches_after_an_earlier_shallow_fetch", 1)
 			class += "/after-shallow-fetch"
 		}
@@ -199,6 +204,16 @@ func c09Run(c *fw.Case, env *fw.Env) *fw.Obs {
 	}
 	o.Ev("refs_updated", int64(len(changed)))
 	recvDB := mon.FromSnapshot(out.afterRecv)
+	// the commit a ref was created at or moved to is within any depth: its table must be there, also when the commit
+	// itself was already present (left shallow by an earlier fetch)
+	for _, m := range changed {
+		if i, ok := w.h.index[m.new]; ok && out.err == nil {
+			if _, ok := out.afterRecv["tbl/"+string(w.h.tables[i])]; !ok {
+				o.Violate("tip-table-missing/"+class, "ref %s was created at / moved to commit %d whose table is not in the receiving repository (%v)", m.name, i, args)
+				return o
+			}
+		}
+	}
 	for _, m := range changed {
 		if missing, _ := ancestorsComplete(recvDB, []byte(m.new)); missing != nil {
 			o.Violate("ancestor-missing/"+class, "ref %s now points at %x but its ancestor %x is not in the receiving repository (%v)", m.name, m.new, missing, args)
@@ -394,6 +409,9 @@ func init() {
 				n := 5 + i%4
 				mid := 2 + i%(n-3)
 				l.Add("fetch", netParams{Op: "fetch", BaseRows: []int{4, 300}[i%2], Shape: chain(n), RevertTo: map[int]int{n - 1: i % mid}, Pre: "shallow-fetch", PreMid: mid, HavesRT: 256}, int64(2450+i))
+				if i%2 == 0 {
+					l.Add("fetch", netParams{Op: "fetch", BaseRows: 4, Shape: chain(n), Pre: "shallow-fetch", PreMid: mid, PreOld: true, HavesRT: 256}, int64(2470+i))
+				}
 			}
 			for i := 0; i < 6; i++ {
 				l.Add("push", netParams{Op: "push", N: 7 + i%4, BaseRows: 4, Branches: 1, Rel: "new", ShallowLocal: 1 + i%2}, int64(2500+i))
